@@ -24,14 +24,18 @@ impl Tier {
     }
 }
 
+pub mod c07;
 pub mod c09;
 pub mod c11;
+pub mod c17;
 pub mod c18;
 
 pub fn run(property: &str, tier: Tier, seed: u64) -> Option<MonOut> {
     match property {
+        "C07" => Some(c07::run(tier, seed)),
         "C09" => Some(c09::run(tier, seed)),
         "C11" => Some(c11::run(tier, seed)),
+        "C17" => Some(c17::run(tier, seed)),
         "C18" => Some(c18::run(tier, seed)),
         _ => None,
     }
